@@ -20,9 +20,10 @@ use nix::unistd::{ForkResult, Pid};
 // read-only exports for the in-process engine
 pub use crate::execute::run_command_line;
 pub use crate::jobc::{try_wait_bg_jobs, wait_fg_job};
+pub use crate::shell::give_terminal_to;
 pub use crate::shell::Shell;
 pub use crate::signals::handle_sigchld;
-pub use crate::signals::verif_parked_snapshot;
+pub use crate::signals::{verif_parked_clear, verif_parked_snapshot};
 pub use crate::types::{CommandResult, Job};
 
 pub trait SimKernel: Send {
